@@ -215,6 +215,28 @@ pub fn case(cx: &mut Case) -> CaseResult {
             }
         }
     }
+    // Words of every size among the values at hand (including components of `a` and words of
+    // other sizes): partial_cmp, cmp and == are one consistent total order
+    {
+        let mut words: Vec<simplicity::Word> = all.iter().filter_map(|x| x.value.to_word()).collect();
+        for extra in [simplicity::Word::u1(0), simplicity::Word::u2(0), simplicity::Word::u8(0), simplicity::Word::u16(1)] {
+            words.push(extra);
+        }
+        for x in &words {
+            for y in &words {
+                let o = x.cmp(y);
+                if x.partial_cmp(y) != Some(o) {
+                    return Err(format!("Word::partial_cmp ({:?}) disagrees with Word::cmp ({:?}) on {} vs {}", x.partial_cmp(y), o, x, y));
+                }
+                if o != y.cmp(x).reverse() {
+                    return Err(format!("Word::cmp is not antisymmetric on {} vs {}", x, y));
+                }
+                if (o == Ordering::Equal) != (x == y) {
+                    return Err(format!("Word::cmp is {:?} but == is {} on {} vs {}", o, x == y, x, y));
+                }
+            }
+        }
+    }
     // Word wrappers delegate to the value
     if let (Some(wa), Some(wb)) = (a.value.to_word(), b.value.to_word()) {
         cx.label("word pair");
